@@ -89,7 +89,7 @@ def case_strategy(draw, quick=True):
     return {'rc': rc, 'pts': draw(st.lists(point_spec(), min_size=4, max_size=8)),
             'zs': draw(st.lists(z_spec(), min_size=1, max_size=3)),
             'lines': draw(st.lists(line_spec(), min_size=2, max_size=4)), 'aid': draw(aid_spec()),
-            'warm': draw(st.booleans())}
+            'warm': draw(st.booleans()), 'companion': draw(st.integers(0, 2)) == 0, 'then_remove': draw(st.integers(0, 2)) == 0}
 
 
 @st.composite
@@ -228,8 +228,18 @@ def run_case(case, R):
     aid = case['aid']
     with R.lib('column_quadtree'):
         X.qt = g.column_quadtree()
+    # a second geometry over the same area (one big column), with a quadtree of its own, alive and in use at the same time:
+    # what is found through one tree is nothing to the other
+    X.g2 = None
+    if case.get('companion'):
+        R.label('companion-geometry-with-its-own-quadtree')
+        with R.lib('companion'):
+            w, h = X.bb[2] - X.bb[0], X.bb[3] - X.bb[1]
+            X.g2 = mulgrids.mulgrid().rectangular([3 * w + 30.], [3 * h + 30.], [10.], origin=[X.bb[0] - w - 15., X.bb[1] - h - 15., 0.], chars='xyz')
+            X.qt2 = X.g2.column_quadtree()
     # ------------------------------------------------------------ points
     npts = 0
+    last_inside = None
     for ps in case['pts']:
         p = make_point(X, ps)
         if p is None: continue
@@ -244,6 +254,10 @@ def run_case(case, R):
         R.label('point:' + ps['k'], 'truth:' + ('inside' if truth is not None else (
             'outside-bbox' if not (X.bb[0] <= p[0] <= X.bb[2] and X.bb[1] <= p[1] <= X.bb[3]) else 'outside-in-bbox')))
         npts += 1
+        if X.g2 is not None:
+            with R.lib('companion-search'):
+                X.g2.column_containing_point(np.array(p), qtree=X.qt2)
+        if truth is not None: last_inside = (p, truth)
         ok = locate_checks(X, R, p, truth, aid)
         if ok is False: continue        # column location already failed for this point; blocks would only repeat it
         for zs in case['zs']:
@@ -253,6 +267,23 @@ def run_case(case, R):
         ln = make_line(X, ls)
         if ln is None: continue
         track_checks(X, R, ln, ls)
+    # ------------------------------------------------------------ a block looked up, its column removed, the same place looked up again
+    if case.get('then_remove') and last_inside is not None and n > 1 and not R.findings:
+        p, col = last_inside
+        und = g.layerlist[1:]
+        zz = [0.5 * (float(l.top) + float(l.bottom)) for l in und if float(l.top) <= float(col.surface)]
+        if zz:
+            R.label('history:block-found-then-its-column-removed')
+            p3 = np.array([p[0], p[1], zz[-1]])
+            with R.lib('block-before-removal'):
+                b0 = g.block_name_containing_point(p3)
+            R.check(b0 is not None and g.column_name(b0) == col.name, 'block:before-removal', 'point %r: %r, column %r contains it' % (tuple(p3), b0, col.name))
+            with R.lib('reduce'):
+                g.reduce([c for c in g.columnlist if c.name != col.name])
+            with R.lib('block-after-removal'):
+                b1 = g.block_name_containing_point(p3)
+            R.check(b1 is None, 'block:column-removed:phantom', 'point %r lay in column %r only; after reduce() without that column '
+                    'block_name_containing_point returns %r' % (tuple(p3), col.name, b1))
 
 
 def in_col_point(X, ci, w):
